@@ -4,7 +4,7 @@ use std::iter::FromIterator;
 use crate::check::constrain::constraint::builder::ConstrBuilder;
 use crate::check::constrain::constraint::expected::Expected;
 use crate::check::constrain::generate::env::Environment;
-use crate::check::constrain::generate::{generate, Constrained};
+use crate::check::constrain::generate::{gen_vec, generate, Constrained};
 use crate::check::context::clss::HasParent;
 use crate::check::context::{Context, LookupClass};
 use crate::check::name::true_name::TrueName;
@@ -20,8 +20,10 @@ pub fn gen_stmt(
 ) -> Constrained {
     match &ast.node {
         Node::Raise { error } => match &error.node {
-            Node::FunctionCall { name, .. } => {
+            Node::FunctionCall { name, args } => {
                 if let Node::Id { lit } = &name.node {
+                    // the arguments of what is raised are expressions
+                    gen_vec(args, &env.is_expr(true), false, ctx, constr)?;
                     let raises = HashSet::from_iter([TrueName::from(lit.as_str())]);
                     check_raises_caught(&raises, env, ctx, ast.pos)?;
                     Ok(env.clone())
